@@ -381,7 +381,7 @@ func (e *Engine) info(fn *ssa.Function) *fnInfo {
 	}
 	if pk != nil {
 		pp := pk.Pkg.Path()
-		for _, pre := range []string{"cosmossdk.io/collections", "github.com/cosmos/cosmos-sdk/codec", "cosmossdk.io/store", "cosmossdk.io/core/store", "github.com/cosmos/cosmos-sdk/types/query"} {
+		for _, pre := range []string{"cosmossdk.io/collections", "github.com/cosmos/cosmos-sdk/codec", "cosmossdk.io/store", "cosmossdk.io/core/store"} {
 			if strings.HasPrefix(pp, pre) {
 				fi.opaque = true
 			}
